@@ -96,7 +96,7 @@ def process(ctx: Ctx, cases: list[dict]) -> None:
                         for nm, text in files.items():
                             p = td / nm
                             p.parent.mkdir(parents=True, exist_ok=True)
-                            p.write_text(text)
+                            p.write_text(text.replace(c06.ABS, str(td)))
                         reset_globals()
                         res.append(spec.strip_placeholders(impl.plain(DictReader.read(td / root))))
             except Exception as e:  # noqa: BLE001
@@ -136,12 +136,23 @@ def equiv_case(rng) -> dict | None:
             d["sub"] = {nm: c05.json_value(v[nm]) for nm in nest}
         return _json.dumps(d, indent=1)
     mix = rng.choice(["nn_jj", "nj_jn"])
+    # where the included file lives and how the directive spells it: same folder, sub folder, by absolute path, or a name that
+    # contains a backslash (a literal character of a POSIX file name, not a separator: no such file exists, nothing is merged)
+    spelling = rng.choice(["plain", "plain", "sub", "abs", "abs_sub", "backslash"])
+    folder = "sub/" if spelling in ("sub", "abs_sub", "backslash") else ""
+
+    def name(base):
+        if spelling in ("abs", "abs_sub"):
+            return c06.ABS + "/" + folder + base
+        if spelling == "backslash":
+            return "sub\\" + base
+        return folder + base
     if mix == "nn_jj":
-        native = {"root": native_file(top, "inc" if inc else None, nested), "inc": native_file(inc)}
-        js = {"root.json": json_file(top, "inc.json" if inc else None, nested), "inc.json": json_file(inc)}
+        native = {"root": native_file(top, name("inc") if inc else None, nested), folder + "inc": native_file(inc)}
+        js = {"root.json": json_file(top, name("inc.json") if inc else None, nested), folder + "inc.json": json_file(inc)}
     else:
-        native = {"root": native_file(top, "inc.json" if inc else None, nested), "inc.json": json_file(inc)}
-        js = {"root.json": json_file(top, "inc" if inc else None, nested), "inc": native_file(inc)}
+        native = {"root": native_file(top, name("inc.json") if inc else None, nested), folder + "inc.json": json_file(inc)}
+        js = {"root.json": json_file(top, name("inc") if inc else None, nested), folder + "inc": native_file(inc)}
     return {"kind": "equiv", "native": native, "nroot": "root", "json": js, "jroot": "root.json"}
 
 
